@@ -178,9 +178,10 @@ type structInfo struct {
 }
 
 type Registry struct {
-	curDefs    map[string]string // definitions of the named terms (t_n) of the function being verified
-	decls      []string          // datatype declarations in dependency order
-	sorts      map[string]string // type key -> sort
+	fieldAlias map[string]map[string]string // struct sort -> contract field name -> current field name (renamed fields)
+	curDefs    map[string]string            // definitions of the named terms (t_n) of the function being verified
+	decls      []string                     // datatype declarations in dependency order
+	sorts      map[string]string            // type key -> sort
 	structs    map[string]*structInfo
 	ghost      map[string][]fieldInfo // qualified struct name -> ghost fields
 	inProgress map[string]bool
@@ -572,6 +573,9 @@ func (r *Registry) fieldOf(t Term, name string) (Term, bool) {
 	if si == nil {
 		return Term{}, false
 	}
+	if a, ok := r.fieldAlias[si.Sort][name]; ok {
+		name = a // the field was renamed after the contracts were written
+	}
 	for i, f := range si.Fields {
 		if f.Name == name {
 			if v, ok := r.knownField(t.S, si.Ctor, i, len(si.Fields), 0); ok {
@@ -632,6 +636,9 @@ func (r *Registry) knownField(s, ctor string, i, n, depth int) (string, bool) {
 // withField returns the struct value t with field name replaced by v.
 func (r *Registry) withField(t Term, name string, v string) Term {
 	si := r.StructInfo(t.T)
+	if a, ok := r.fieldAlias[si.Sort][name]; ok {
+		name = a
+	}
 	var fs []string
 	found := false
 	for i, f := range si.Fields {
